@@ -14,11 +14,11 @@ TECH = {
  'C06': ('structural invariant checker over live graph tables after every update (incl. flow paths longer than 65535 nodes), under ASan+UBSan; ThreadSanitizer on the parallel router; coverage-guided libFuzzer campaigns over the generator decisions', '5 C06'),
  'C07': ('bounded exhaustive enumeration of grid configurations against a reference neighbourhood model; query-order, second-grid, second-thread, copy / assignment histories; concurrent look-ups under ASan and ThreadSanitizer', '5 C07'),
  'C08': ('compiler sanitizers (ASan+UBSan, libstdc++ assertions, library asserts) over all harness workloads + table-width invariants; valgrind memcheck and libFuzzer campaigns in the thorough tier', '5 C08'),
- 'C09': ('history differential: long-lived graph vs fresh graph, bit-exact state digest; independent graphs on two threads vs one after the other (ASan and ThreadSanitizer)', '5 C09'),
+ 'C09': ('history differential: long-lived graph vs fresh graph, bit-exact state digest; independent graphs on two threads vs one after the other (ASan and ThreadSanitizer); coverage-guided libFuzzer campaigns over the generator decisions', '5 C09'),
  'C10': ('parallel-vs-sequential differential (bit-exact) with hook-driven delay injection + ThreadSanitizer', '5 C10'),
  'C11': ('exactly-once / partition monitors on the real pool, hook-driven delay injection, lost-wake-up detector over the hook event log, watchdog, ThreadSanitizer', '5 C11'),
  'C12': ('reference oracle on erode() output + verification hook recording limited nodes, under ASan+UBSan; independent eroders on two threads (ASan and ThreadSanitizer)', '5 C12'),
- 'C13': ('long-double residual oracle of the implicit equation with sensitivity-aware tolerance, under ASan+UBSan; independent eroders on two threads (ASan and ThreadSanitizer)', '5 C13'),
+ 'C13': ('long-double residual oracle of the implicit equation with sensitivity-aware tolerance, under ASan+UBSan; independent eroders on two threads (ASan and ThreadSanitizer); coverage-guided libFuzzer campaigns over the generator decisions', '5 C13'),
  'C14': ('independent dense Gaussian-elimination solve of the two ADI half steps (long double) + metamorphic checks (linearity, status independence, scalar vs array); independent eroders on two threads (ASan and ThreadSanitizer)', '5 C14'),
  'C15': ('independent edge-set / Kruskal oracle (weight multiset), Kruskal-vs-Boruvka differential, reused basin-graph objects; libFuzzer campaigns in the thorough tier', '5 C15'),
  'C16': ('snapshot-vs-prefix-graph differential (bit-exact digest) over update histories + refusal checks', '5 C16'),
